@@ -146,7 +146,7 @@ pub fn proto_from(name: &[u8], level: u8) -> Option<Protocol> {
 // twice) are sometimes handed over as clones of ONE shared value, as applications that intern
 // their strings do: reference counts above one, pointer-equal fields.
 thread_local! {
-    static LAST_STR: std::cell::RefCell<Option<Arc<String>>> = std::cell::RefCell::new(None);
+    static LAST_STR: std::cell::RefCell<Vec<Arc<String>>> = std::cell::RefCell::new(Vec::new());
     static LAST_FILTER: std::cell::RefCell<Option<TopicFilter>> = std::cell::RefCell::new(None);
     static LAST_NAME: std::cell::RefCell<Option<TopicName>> = std::cell::RefCell::new(None);
 }
@@ -154,13 +154,18 @@ thread_local! {
 fn astr(b: &[u8]) -> Option<Arc<String>> {
     LAST_STR.with(|l| {
         let mut l = l.borrow_mut();
-        if let Some(prev) = l.as_ref() {
-            if prev.as_bytes() == b && b.len() % 2 == 1 {
+        // the last few strings built on this thread: an equal one is shared (pointer-equal keys of
+        // repeated user properties, interned identifiers) for about half of the contents
+        if crate::rng::fnv_bytes(7, b) % 2 == 0 {
+            if let Some(prev) = l.iter().find(|p| p.as_bytes() == b) {
                 return Some(prev.clone());
             }
         }
         let a = Arc::new(String::from_utf8(b.to_vec()).ok()?);
-        *l = Some(a.clone());
+        if l.len() >= 8 {
+            l.remove(0);
+        }
+        l.push(a.clone());
         Some(a)
     })
 }
@@ -272,9 +277,9 @@ pub fn v3_from_lib(p: &v3::Packet) -> RP {
     }
 }
 
-/// Binary fields are handed to the crate the way applications hold them: sometimes as an owned
-/// buffer, sometimes as a window into a larger shared buffer (a `Bytes` sub-slice at a non-zero,
-/// odd offset with spare bytes behind it). Chosen from the content, so a case replays identically.
+// Binary fields are handed to the crate the way applications hold them: sometimes as an owned
+// buffer, sometimes as a window into a larger shared buffer (a `Bytes` sub-slice at a non-zero,
+// odd offset with spare bytes behind it). Chosen from the content, so a case replays identically.
 thread_local! {
     /// binary fields already built for the packet under construction
     static ARENA: std::cell::RefCell<Vec<Bytes>> = std::cell::RefCell::new(Vec::new());
